@@ -125,7 +125,13 @@ func runHarness(h replayHarness, req map[string]interface{}, tag string) (map[st
 	writeJSON(ovFile, map[string]interface{}{"Replace": ov})
 	ctx, cancel := context.WithTimeout(context.Background(), 240*time.Second)
 	defer cancel()
-	cmd := exec.CommandContext(ctx, "go", "test", "-overlay", ovFile, "-vet=off", "-count=1", "-timeout", "180s", "-run", "^TestVerifReplay$", "./"+h.PkgDir)
+	args := []string{"test", "-overlay", ovFile, "-vet=off", "-count=1", "-timeout", "180s", "-run", "^TestVerifReplay$"}
+	if r, _ := req["race"].(bool); r {
+		// concurrent scenarios run under the Go race detector: a reported race makes the test binary fail
+		args = append(args, "-race")
+	}
+	args = append(args, "./"+h.PkgDir)
+	cmd := exec.CommandContext(ctx, "go", args...)
 	cmd.Dir = repoDir
 	cmd.Env = append(loadEnv(), "VERIF_REPLAY_REQ="+reqFile, "VERIF_REPLAY_OUT="+outFile)
 	outb, err := cmd.CombinedOutput()
@@ -140,6 +146,26 @@ func runHarness(h replayHarness, req map[string]interface{}, tag string) (map[st
 	var res map[string]interface{}
 	if err := json.Unmarshal(b, &res); err != nil {
 		return nil, text, err
+	}
+	if r, _ := req["race"].(bool); r {
+		if i := strings.Index(text, "WARNING: DATA RACE"); i >= 0 {
+			// the race detector's report is the violation: the two accesses and their functions
+			var lines []string
+			for _, ln := range strings.Split(text[i:], "\n") {
+				t := strings.TrimSpace(ln)
+				if strings.HasPrefix(t, "Read at") || strings.HasPrefix(t, "Write at") || strings.HasPrefix(t, "Previous") || strings.HasPrefix(t, "tkestack.io/kvass") {
+					lines = append(lines, t)
+				}
+				if len(lines) >= 6 {
+					break
+				}
+			}
+			if f, _ := res["found"].(bool); !f {
+				res["found"] = true
+				res["violation"] = "data_race: the Go race detector reports unsynchronised accesses: " + strings.Join(lines, " | ")
+				res["state"] = map[string]interface{}{"seed": 0}
+			}
+		}
 	}
 	return res, text, nil
 }
